@@ -240,6 +240,43 @@ def helpers(chk):
             bad.append(('record', 'PositionAndLook%s == PositionAndLook%s is %s; field-wise comparison gives %s' % (f, g, x == y, f == g)))
         if x == y and hash(x) != hash(y):
             bad.append(('record', 'PositionAndLook%r and PositionAndLook%r compare equal but hash differently' % (f, g)))
+    # record types that extend record types (in either order of first use): every slot of the whole hierarchy counts
+    for order in ('parent-first', 'child-first'):
+        class Base(MutableRecord):
+            __slots__ = 'a', 'b'
+
+        class Child(Base):
+            __slots__ = 'c',
+
+        class GrandChild(Child):
+            __slots__ = 'd', 'e'
+
+        class PALX(PositionAndLook):
+            __slots__ = 'on_ground',
+        mk = {Base: lambda v: Base(a=v[0], b=v[1]), Child: lambda v: Child(a=v[0], b=v[1], c=v[2]),
+              GrandChild: lambda v: GrandChild(a=v[0], b=v[1], c=v[2], d=v[3], e=v[4]),
+              PALX: lambda v: PALX(x=v[0], y=v[1], z=v[2], yaw=v[3], pitch=v[4], on_ground=v[5]),
+              PositionAndLook: lambda v: PositionAndLook(x=v[0], y=v[1], z=v[2], yaw=v[3], pitch=v[4])}
+        nf = {Base: 2, Child: 3, GrandChild: 5, PALX: 6, PositionAndLook: 5}
+        seq = [Base, PositionAndLook, Child, PALX, GrandChild]
+        if order == 'child-first':
+            seq = seq[::-1]
+        for cls in seq + seq:
+            for _ in range(12):
+                f = [rng.choice([0, 1, 2, 'a', None]) for _ in range(nf[cls])]
+                g = list(f)
+                if rng.random() < 0.7:
+                    g[rng.randrange(nf[cls]) if rng.random() < 0.5 else nf[cls] - 1] = rng.choice([0, 1, 2, 'a', None, 'zz'])
+                x, y = mk[cls](f), mk[cls](g)
+                chk.count('record-subclass', [order, cls.__name__, repr(f), repr(g)], True)
+                if (x == y) != (f == g) or (x != y) == (x == y):
+                    bad.append(('record', '%s (%s): %s%s == %s%s is %s; field-wise comparison gives %s' % (cls.__name__, order, cls.__name__, f, cls.__name__, g, x == y, f == g)))
+                elif x == y and hash(x) != hash(y):
+                    bad.append(('record', '%s (%s): equal records hash differently: %s' % (cls.__name__, order, f)))
+                elif list(x) != f:
+                    bad.append(('record', '%s (%s): iterating %s%s yields %s' % (cls.__name__, order, cls.__name__, f, list(x))))
+                elif any(('%r' % (v,)) not in repr(x) for v in f) or not repr(x).startswith(cls.__name__ + '('):
+                    bad.append(('record', '%s (%s): repr %s does not show every field of %s' % (cls.__name__, order, repr(x), f)))
     # aliases
     ctx = ConnectionContext(protocol_version=757)
     for _ in range(100):
